@@ -780,7 +780,12 @@ class AutoSerialize:
         # Remove attributes in skip_names that may have been set by __init__ (when using __new__)
         for name in skip_names:
             if hasattr(obj, name):
-                delattr(obj, name)
+                try:
+                    delattr(obj, name)
+                except AttributeError:
+                    # the name is provided by the class (default value, method, property):
+                    # there is nothing to remove on the instance
+                    pass
 
         # attrs pattern: call post-init if defined
         if hasattr(obj, "__attrs_post_init__"):
